@@ -25,7 +25,7 @@ REQUIRED_MONITORS = ["equals_channel_sum", "zero_magnetisation_is_nonmagnetic"]
 REQUIRED_BUCKETS = {"quick": ["up_frac:0", "up_frac:0.5", "up_frac:1", "up_frac:outside", "up_frac:random", "axis:up_theta90",
                               "axis:tilted", "magnetic_slds:1", "magnetic_slds:all", "vector_sld", "dispersity", "oriented",
                               "lane:asan", "nonmagnetic_sld_with_nonzero_angles", "mesh>100",
-                              "angles:outside-nominal-range"]}
+                              "angles:outside-nominal-range", "entry:call_Fq"]}
 REQUIRED_BUCKETS["thorough"] = REQUIRED_BUCKETS["quick"]
 
 
@@ -184,6 +184,16 @@ def run_case(case, rec):
     rec.check("equals_channel_sum", ok, None if ok else dict(ctx, observed=I, expected=exp,
                                                               max_rel_err=core.maxrel(I, exp)))
     rec.check("no_stale_result", not sas.has_poison(I), ctx)
+    # the amplitude entry point on the same request: <F^2> and the shell volume it returns reproduce the intensity,
+    # i.e. it evaluates the same four-channel sum
+    if k % 2 == 0:
+        _F1, F2, _R, Vs, _ratio = direct_model.call_Fq(kernel, dict(mpars))
+        Ifq = scale*np.asarray(F2, float)/float(Vs) + bg
+        okf = bool(np.all(np.abs(Ifq - exp) <= 1e-9*np.abs(exp) + scale*slack + 1e-300))
+        rec.check("equals_channel_sum", okf,
+                  None if okf else dict(ctx, entry="call_Fq: scale*<F^2>/V_shell + background", observed=Ifq, expected=exp,
+                                        from_call_kernel=I, max_rel_err=core.maxrel(Ifq, exp)))
+        rec.bucket("entry:call_Fq")
     # all magnitudes zero: bit-identical to the non-magnetic call
     zpars = dict(mpars)
     for s in slds:
